@@ -1163,12 +1163,26 @@ func genRandomString() (string, error) {
 // We need to ensure that all login destinations are relative paths
 // Thus the path MUST start with a / but MUST NOT start with a //, because
 // // is interpreted as: use whatever protocol you think is OK
+// Browsers treat a backslash like a slash and strip tabs and newlines, so
+// "/\\host" or "/<TAB>/host" would also leave our origin.
+func isSafeLoginDestination(destination string) bool {
+	if !strings.HasPrefix(destination, "/") ||
+		strings.HasPrefix(destination, "//") {
+		return false
+	}
+	for _, c := range destination {
+		if c < 0x20 || c == 0x7f || c == '\\' {
+			return false
+		}
+	}
+	return true
+}
+
 func getLoginDestination(r *http.Request) string {
 	loginDestination := profilePath
 	if r.FormValue("login_destination") != "" {
 		inboundLoginDestination := r.Form.Get("login_destination")
-		if strings.HasPrefix(inboundLoginDestination, "/") &&
-			!strings.HasPrefix(inboundLoginDestination, "//") {
+		if isSafeLoginDestination(inboundLoginDestination) {
 			loginDestination = inboundLoginDestination
 		}
 	}
